@@ -582,7 +582,7 @@ func hammerExtra(c *Ctx) {
 		for k := 0; k < workers; k++ {
 			texts = append(texts, fmt.Sprintf("S1F1 W H->E\n<L <A [ %d .. // up to\n %d ] name%d> <U1[ %d ] %s> <L [ %d..\n] <B 1>> <A[%d .. %d] \"%s\">>\n.",
 				10+k, 200+3*k, k, k+1, strings.TrimSpace(strings.Repeat("7 ", k+1)), k%2, 1000+k, 50000+k, strings.Repeat("x", 1000+k)))
-			cj = append(cj, J{"op": "SmlParse", "obj": fmt.Sprintf("sizes%d", k)})
+			cj = append(cj, J{"op": "SmlParse", "obj": "text"})
 		}
 		c.emit(4, J{"ev": "begin", "variant": 0, "calls": cj})
 		c.out.Flush()
@@ -622,8 +622,8 @@ func hammerExtra(c *Ctx) {
 	if c.want(5) && c.From <= 5 {
 		kinds := []string{"select.req", "deselect.req", "linktest.req", "separate.req", "select.rsp", "reject.req"}
 		cj := []interface{}{}
-		for _, k := range kinds {
-			cj = append(cj, J{"op": "ToBytes", "obj": k})
+		for range kinds {
+			cj = append(cj, J{"op": "ToBytes", "obj": "control"})
 		}
 		c.emit(5, J{"ev": "begin", "variant": 0, "calls": cj})
 		c.out.Flush()
